@@ -130,6 +130,27 @@ Theorem C14_incubation_factor_in_unit_interval_and_monotone tau :
 Proof. exact (conj (incubation_factor_bounds tau) (fun H t1 t2 => incubation_factor_monotone tau t1 t2 H)). Qed.
 Print Assumptions C14_incubation_factor_in_unit_interval_and_monotone.
 
+(* the transient rate from the first evaluation (time = 0) on: zero at time 0 and wherever there is no barrier,
+   non-negative, and rising with time (the incubation factor is 0 at time 0, in [0,1], non-decreasing on t >= 0) *)
+Theorem C14_transient_rate_from_time_zero Z beta G T tau :
+  nucleationRate_ext Z beta G T tau 0 = 0 /\ (forall t, nucleationRate_ext Z beta 0 T tau t = 0) /\
+  (forall t, t <> 0 -> nucleationRate_ext Z beta G T tau t = nucleationRate Z beta G T tau t) /\
+  (0 <= Z -> 0 <= beta -> forall t, 0 <= nucleationRate_ext Z beta G T tau t) /\
+  (0 <= Z -> 0 <= beta -> 0 <= tau -> forall t1 t2, 0 <= t1 -> t1 <= t2 ->
+     nucleationRate_ext Z beta G T tau t1 <= nucleationRate_ext Z beta G T tau t2).
+Proof.
+  exact (conj (nucleationRate_ext_time_zero Z beta G T tau) (conj (nucleationRate_ext_zero_barrier Z beta T tau)
+        (conj (fun t => nucleationRate_ext_pos_time Z beta G T tau t)
+        (conj (fun HZ Hb t => nucleationRate_ext_nonneg Z beta G T tau t HZ Hb)
+              (fun HZ Hb Ht t1 t2 => nucleationRate_ext_monotone_in_time Z beta G T tau t1 t2 HZ Hb Ht))))).
+Qed.
+Print Assumptions C14_transient_rate_from_time_zero.
+Theorem C14_incubation_factor_from_time_zero tau :
+  (forall t, 0 <= incubation_factor_ext tau t <= 1) /\
+  (0 <= tau -> forall t1 t2, 0 <= t1 -> t1 <= t2 -> incubation_factor_ext tau t1 <= incubation_factor_ext tau t2).
+Proof. exact (conj (incubation_factor_ext_bounds tau) (fun H t1 t2 => incubation_factor_ext_monotone tau t1 t2 H)). Qed.
+Print Assumptions C14_incubation_factor_from_time_zero.
+
 (* at fixed temperature the steady-state rate does not decrease with the driving force (all real
    driving forces, including the switch-on at 0 and the range where the radius is clamped to Rmin) *)
 Theorem C14_steady_rate_monotone_in_dg_bulk thermo gamma Rmin_ vf Vm T kbeta d1 d2 :
